@@ -428,4 +428,17 @@ def run(ctx):
                    "code by the correspondence relation coq/Corr/C16.v evaluated on every run",
                    "harness/props/c16.py (generators, exact-rational oracle, Coq term printer)",
                    "IEEE-754 arithmetic of CPython/numpy (rounded; model exact over Q)"]
+    ctx.trusted.insert(3, "harness/vlib/py2coq.py + harness/props/c16_src.py: translator (symbolic execution, fail-closed) of "
+                          "commonroad/common/util.py:28-43,84-250 and validity.py:157-220 into coq/Gen/Src_util.v on every "
+                          "run; C16_model_is_source_interval / _angle prove the hand-written model equal to that text")
+    from props import c16_src
+    from vlib.py2coq import TranslationError
+    try:
+        changed = c16_src.generate()
+        ctx.notes.append(f"Gen/Src_util.v regenerated from the source ({'changed' if changed else 'unchanged'})")
+    except (TranslationError, SyntaxError, OSError) as e:
+        # fail closed: the source left the translatable subset, the model is no longer shown to be the source
+        ctx.proof_breaks.append({"theorem": "translator:Gen/Src_util.v (C16_model_is_source_*)", "where": "harness/props/c16_src.py",
+                                 "log": str(e)})
+        ctx.log(f"translator failed: {e}")
     return standard_run(ctx, __import__("props.c16", fromlist=["x"]), 1500, 40000, RULE, ASSUME)
